@@ -86,17 +86,18 @@ def succs (c : Cfg) (st : St) : List St :=
   (List.range c.n).flatMap fun t => [false, true].filterMap fun sk => step c st t sk
 
 /-- exhaustive exploration of all interleavings (fuel-bounded worklist, visited set) -/
-def explore (c : Cfg) : Nat → List St → Std.HashSet String → Std.HashSet String → Option (Std.HashSet String)
+def explore (c : Cfg) (fin : St → Option (St × Outcome)) :
+    Nat → List St → Std.HashSet String → Std.HashSet String → Option (Std.HashSet String)
   | _, [], _, finals => some finals
   | 0, _ :: _, _, _ => none
   | fuel + 1, st :: stack, seen, finals =>
     let key := stKey c st
-    if seen.contains key then explore c fuel stack seen finals
+    if seen.contains key then explore c fin fuel stack seen finals
     else
       let seen := seen.insert key
-      match finish c st with
-      | some (st', o) => explore c fuel stack seen (finals.insert (renderFinal st' o))
-      | none => explore c fuel (succs c st ++ stack) seen finals
+      match fin st with
+      | some (st', o) => explore c fin fuel stack seen (finals.insert (renderFinal st' o))
+      | none => explore c fin fuel (succs c st ++ stack) seen finals
 
 def strSort (l : List String) : List String := l.mergeSort (fun a b => decide (a ≤ b))
 
@@ -118,11 +119,26 @@ def handleExit (args : List String) : String :=
           | none => "err stuck"
         | none => "bad-op"
       | "reach", [] =>
-        match explore c 4000000 [initSt parts] {} {} with
+        match explore c (finish c) 4000000 [initSt parts] {} {} with
         | some finals => "ok " ++ ";".intercalate (strSort finals.toList)
         | none => "err fuel"
       | _, _ => "bad-op"
     | _, _, _, _ => "bad-op"
+  | _ => "bad-op"
+
+/-- `reachE guarded fixup caseRet caseErr kinds parts`: all interleavings, epilogue as emitted for a static shape -/
+def handleReachE (args : List String) : String :=
+  match args with
+  | [g, f, cr, ce, kinds, parts] =>
+    match parseBool g, parseBool f, parseBool cr, parseBool ce, parseKinds kinds, parseParts parts with
+    | some g, some f, some cr, some ce, some kinds, some parts =>
+      let c : Cfg := { n := parts.length, kinds := fun k => kinds.getD k .cont, guarded := g, preferErr := f }
+      let e : Emit := { fixup := f, caseRet := cr, caseErr := ce }
+      if parts.flatten.any (fun k => k ≥ kinds.length) then "bad-op" else
+      match explore c (finishEmit e c) 4000000 [initSt parts] {} {} with
+      | some finals => "ok " ++ ";".intercalate (strSort finals.toList)
+      | none => "err fuel"
+    | _, _, _, _, _, _ => "bad-op"
   | _ => "bad-op"
 
 def parseOutcome (s : String) : Option Outcome :=
@@ -139,6 +155,7 @@ def handle : List String → String
   | "par" :: args => handleLoop true args
   | "exit" :: args => handleExit ("exit" :: args)
   | "reach" :: args => handleExit ("reach" :: args)
+  | "reachE" :: args => handleReachE args
   | ["allowed", kinds, ran, out] =>
     match parseKinds kinds, parseNats ran, parseOutcome out with
     | some kinds, some ran, some out =>
